@@ -6,6 +6,7 @@ package spynode
 
 import (
 	"context"
+	"time"
 
 	"github.com/tokenized/pkg/wire"
 
@@ -169,4 +170,211 @@ func VerifHarness_C01_pending_fork() {
 	verifrt.Sig("pending-fork", forkAt, "stall")
 	verifrt.Assert(w.converged(), "C01.converges.tip-height-equals-peers")
 	verifrt.Reach("C01.pending-fork.done")
+}
+
+// VerifHarness_C01_inv_early: the initial download is still going on (the node has not asked for
+// header announcements yet) when the peer's chain grows by one block, twice, which a Bitcoin
+// node then announces by a block inventory of its new tip.  The node still ends on the peer's tip, and the
+// in-sync notification waits for the announced blocks.
+func VerifHarness_C01_inv_early() {
+	ctx := context.Background()
+	k, err := vkNewNode(ctx, nil)
+	verifrt.Assert(err == nil, "C01.kit.node-loads")
+	k.node.state.SetVersionReceived()
+	k.node.state.MarkConnected()
+	tree := vkNewTree(*k.node.blocks.LastHash())
+	names := []string{"a1", "a2", "a3", "a4", "a5", "a6", "a7", "a8"}
+	parent := ""
+	for _, n := range names {
+		tree.add(n, parent, nil)
+		parent = n
+	}
+	w := &c01World{ctx: ctx, k: k, tree: tree, heard: map[string]bool{}}
+	w.peer = vkNewPeer(tree, "a6")
+	grown := 0
+	grow := func() {
+		if grown >= 2 {
+			return
+		}
+		grown++
+		tip := []string{"a7", "a8"}[grown-1]
+		if w.peer.sendHeaders {
+			w.peer.setBest(tip) // announced by headers
+			return
+		}
+		w.peer.setBest(tip) // (silent: no header announcements were asked for)
+		inv := wire.NewMsgInv()
+		h := tree.hashes[tip]
+		inv.AddInvVect(wire.NewInvVect(wire.InvTypeBlock, &h))
+		w.peer.send(inv)
+		// (a Bitcoin node does not announce these blocks again when it is later asked for header
+		// announcements)
+		for _, n := range w.peer.best {
+			w.peer.announced[n] = true
+		}
+		verifrt.Reach("C01.inv-early.announced-by-inventory")
+	}
+	// the fair schedule of the world kit (deliver and process alternately, poll when nothing is on
+	// its way), with the growth of the peer's chain at any one of its steps
+	horizon := 30
+	if verifrt.Thorough() {
+		horizon = 45
+	}
+	growAt := verifrt.Choose("chain-grows-before-step", horizon)
+	growAgain := growAt + verifrt.Choose("and-again-so-many-steps-later", horizon-growAt)
+	step := 0
+	tick := func() {
+		if step == growAt {
+			grow()
+		}
+		if step == growAgain {
+			grow()
+		}
+		step++
+	}
+	for r := 0; r < 12 && step < horizon; r++ {
+		for {
+			tick()
+			before := w.countInSync()
+			delivered := w.deliver()
+			w.checkInSyncNotifications(before)
+			if !delivered {
+				break
+			}
+			tick()
+			before = w.countInSync()
+			w.process()
+			w.checkInSyncNotifications(before)
+		}
+		tick()
+		before := w.countInSync()
+		w.process()
+		w.checkInSyncNotifications(before)
+		tick()
+		before = w.countInSync()
+		w.poll()
+		w.checkInSyncNotifications(before)
+	}
+	grow()
+	grow()
+	before := w.countInSync()
+	w.settle(8)
+	w.checkInSyncNotifications(before)
+	verifrt.Note("closure: node height %d tip %s, peer best %v", k.node.blocks.LastHeight(), tree.byHash[*k.node.blocks.LastHash()], w.peer.best)
+	verifrt.Sig("inv-early", "stall")
+	verifrt.Assert(w.converged(), "C01.converges.tip-height-equals-peers")
+	verifrt.Reach("C01.inv-early.done")
+}
+
+// VerifHarness_C01_inv_tail: as C01_inv_early with the block processor lagging behind the network, as
+// it does in a real initial download: every message is preceded by the periodic check (the read
+// loop runs it before each read), all announced bodies arrive, p of them are processed, and the
+// peer's chain grows by one block at two chosen points of what follows (announced by block inventory
+// while the node has not asked for header announcements).
+func VerifHarness_C01_inv_tail() {
+	ctx := context.Background()
+	k, err := vkNewNode(ctx, nil)
+	verifrt.Assert(err == nil, "C01.kit.node-loads")
+	k.node.state.SetVersionReceived()
+	k.node.state.MarkConnected()
+	tree := vkNewTree(*k.node.blocks.LastHash())
+	parent := ""
+	for _, n := range []string{"a1", "a2", "a3", "a4", "a5", "a6", "a7", "a8"} {
+		tree.add(n, parent, nil)
+		parent = n
+	}
+	w := &c01World{ctx: ctx, k: k, tree: tree, heard: map[string]bool{}}
+	w.peer = vkNewPeer(tree, "a6")
+	grown := 0
+	grow := func() {
+		if grown >= 2 {
+			return
+		}
+		grown++
+		tip := []string{"a7", "a8"}[grown-1]
+		announceByInv := !w.peer.sendHeaders
+		w.peer.setBest(tip)
+		if announceByInv {
+			inv := wire.NewMsgInv()
+			h := tree.hashes[tip]
+			inv.AddInvVect(wire.NewInvVect(wire.InvTypeBlock, &h))
+			w.peer.send(inv)
+			for _, n := range w.peer.best {
+				w.peer.announced[n] = true
+			}
+			verifrt.Reach("C01.inv-tail.announced-by-inventory")
+		}
+	}
+	// the read loop: the periodic check, then the next message
+	// (while the node is not in sync and has fewer than five blocks pending every answer to a poll
+	// is followed by the next poll, so the exchange is cut after a few messages)
+	exchange := func() {
+		for n := 0; n < 10; n++ {
+			before := w.countInSync()
+			w.poll()
+			w.checkInSyncNotifications(before)
+			before = w.countInSync()
+			delivered := w.deliver()
+			w.checkInSyncNotifications(before)
+			if !delivered {
+				return
+			}
+		}
+	}
+	// one block: the processor is stopped (as Stop would) once it has taken a block off the queue,
+	// so its loop ends after that block
+	processOne := func() {
+		before := w.countInSync()
+		vkInterleave = func(point string) {
+			k.node.lock.Lock()
+			k.node.stopping = true
+			k.node.lock.Unlock()
+		}
+		verifrt.OnSleep(func(d time.Duration) { // nothing to process: the loop would sleep and look again
+			k.node.lock.Lock()
+			k.node.stopping = true
+			k.node.lock.Unlock()
+		})
+		perr := k.node.processBlocks(ctx)
+		verifrt.OnSleep(nil)
+		vkInterleave = nil
+		k.node.lock.Lock()
+		k.node.stopping = false
+		k.node.lock.Unlock()
+		verifrt.Assert(perr == nil, "C01.process.no-error")
+		w.pump()
+		w.checkInSyncNotifications(before)
+	}
+	exchange() // headers a1..a6, all six bodies
+	// the processor's progress and the two growth events, interleaved: each of the next 8 slots is a
+	// processing step preceded, at two chosen slots, by a growth of the peer's chain; the wire is
+	// served (check, read) after every slot or only after the growth events
+	g1 := verifrt.Choose("first-growth-before-slot", 8)
+	g2 := g1 + verifrt.Choose("second-growth-slots-later", 8-g1)
+	eager := verifrt.Choose("read-loop-runs-after-every-slot", 2) == 1
+	for slot := 0; slot < 8; slot++ {
+		if slot == g1 {
+			grow()
+			exchange()
+		}
+		if slot == g2 {
+			grow()
+			exchange()
+		}
+		if k.node.state.BlocksRequestedCount() > 0 {
+			processOne()
+		}
+		if eager {
+			exchange()
+		}
+	}
+	grow()
+	grow()
+	before := w.countInSync()
+	w.settle(8)
+	w.checkInSyncNotifications(before)
+	verifrt.Note("closure: node height %d tip %s, peer best %v", k.node.blocks.LastHeight(), tree.byHash[*k.node.blocks.LastHash()], w.peer.best)
+	verifrt.Sig("inv-tail", "stall")
+	verifrt.Assert(w.converged(), "C01.converges.tip-height-equals-peers")
+	verifrt.Reach("C01.inv-tail.done")
 }
